@@ -11,7 +11,7 @@ from .. import gen
 from .. import universe as uni
 from .. import valmc
 from ..history import World
-from ..valmc import trepr
+from ..valmc import trepr, trepr_unordered
 from .common import Acc as SweepAcc, outcome_sig
 
 PROP = 'C16'
@@ -195,7 +195,7 @@ def work(ctx, task):
                 acc.counters['builds'] += 2
                 acc.counters['value_cases'] += 1
                 expect_inv = ['failing'] * 0
-                if trepr(r1) != trepr(r2):
+                if trepr_unordered(r1) != trepr_unordered(r2):
                     acc.bad('persist.value', {'position': pos}, value=trepr(v), first=trepr(r1), served=trepr(r2))
                 if inv:
                     acc.bad('persist.reexecuted', {'position': pos}, value=trepr(v), invoked=list(inv))
